@@ -91,4 +91,73 @@ theorem visits_mem (c : UCmp) (aux : Level) (v : Version) (k : Bytes) (s : Nat) 
           simp only [List.getElem?_cons_succ]
           rw [hget]; exact hmem
 
+/-! ## a lookup that consults nothing finds nothing -/
+
+theorem l0Get_none_of_no_overlap (c : UCmp) (tables : Level) (k : Bytes) (s : Nat)
+    (h : ∀ t ∈ tables, t.overlapsKey c k = false) : l0Get c tables k s = none := by
+  unfold l0Get
+  induction tables with
+  | nil => rfl
+  | cons t ts ih =>
+    simp only [List.foldl_cons]
+    have ht : t.overlapsKey c k = false := h t (by simp)
+    simp only [ht, Bool.false_eq_true, if_false]
+    exact ih (fun x hx => h x (by simp [hx]))
+
+theorem levelGet_none_of_levelVisit_none (c : UCmp) (tables : Level) (k : Bytes) (s : Nat)
+    (h : levelVisit c tables k s = none) : levelGet c tables k s = none := by
+  unfold levelVisit at h
+  unfold levelGet
+  cases hs : searchMax c tables (probe k s) with
+  | none => rfl
+  | some t =>
+    rw [hs] at h
+    simp only at h
+    by_cases hc : (c.cmp k t.imin.ukey != .lt) = true
+    · rw [if_pos hc] at h; cases h
+    · simp only [hc]; rfl
+
+theorem deeperGet_miss_of_no_visits (c : UCmp) (ls : List Level) (k : Bytes) (s : Nat) :
+    ∀ lvl, deeperVisits c lvl ls k s = [] → deeperGet c ls k s = .miss := by
+  induction ls with
+  | nil => intro _ _; rfl
+  | cons l tl ih =>
+    intro lvl h
+    unfold deeperVisits at h
+    cases hv : levelVisit c l k s with
+    | some t =>
+      rw [hv] at h
+      simp only at h
+      cases hp : tableProbe c t k s <;> rw [hp] at h <;> simp at h
+    | none =>
+      rw [hv] at h
+      unfold deeperGet
+      rw [levelGet_none_of_levelVisit_none c l k s hv]
+      exact ih (lvl + 1) h
+
+/-- a lookup that consults no table of the version finds nothing in it -/
+theorem versionGet_miss_of_no_visits (c : UCmp) (aux : Level) (v : Version) (k : Bytes) (s : Nat)
+    (haux : l0Get c aux k s = none) (h : visits c aux v k s = []) : versionGet c aux v k s = .miss := by
+  unfold visits at h
+  unfold versionGet
+  rw [haux] at h ⊢
+  simp only at h ⊢
+  cases hlv : v.levels with
+  | nil => rfl
+  | cons l0 rest =>
+    rw [hlv] at h
+    simp only [List.append_eq_nil_iff, List.map_eq_nil_iff] at h
+    obtain ⟨h0, h1⟩ := h
+    have hno : ∀ t ∈ l0, t.overlapsKey c k = false := by
+      intro t ht
+      cases ho : t.overlapsKey c k with
+      | false => rfl
+      | true =>
+        have : t ∈ l0Visits c l0 k := List.mem_filter.2 ⟨ht, ho⟩
+        rw [h0] at this; cases this
+    have hl0 := l0Get_none_of_no_overlap c l0 k s hno
+    rw [hl0] at h1
+    simp only [hl0]
+    exact deeperGet_miss_of_no_visits c rest k s 1 h1
+
 end GoLevel.Seek
